@@ -42,6 +42,13 @@ def _build(kind, shape, g, ctx):
     shape = tuple(shape)
     if kind == "f":        # dyadic lattice: exact arithmetic downstream
         return g.integers(-8, 9, size=shape).astype(np.float64) / 2.0
+    if kind == "tris":     # dyadic triangles of positive area wherever the shape is a stack of 3x3 blocks (a zero-area stack
+        a = g.integers(-8, 9, size=shape).astype(np.float64) / 2.0      # has no positive weight to sample by)
+        if len(shape) == 3 and shape[1:] == (3, 3):
+            for t in a:
+                while not np.any(np.cross(t[1] - t[0], t[2] - t[0])):
+                    t[...] = g.integers(-8, 9, size=(3, 3)).astype(np.float64) / 2.0
+        return a
     if kind == "ff":       # generic floats
         return g.normal(size=shape) * 3.0
     if kind == "unit":
@@ -300,7 +307,7 @@ reg("tri.barycentric_coordinates_of_points", [("vertices_of_tris", "f"), ("point
     [{"vertices_of_tris": ("k", 3, 3), "points": K3}],
     fn(_tri, "barycentric_coordinates_of_points", "vertices_of_tris", "points"),
     stack=dict(stacked=["vertices_of_tris", "points"], mode="slice"))
-reg("tri.sample", [("vertices_of_tris", "f"), ("weights", "pos")],
+reg("tri.sample", [("vertices_of_tris", "tris"), ("weights", "pos")],
     [{"vertices_of_tris": ("k", 3, 3), "weights": None}, {"vertices_of_tris": ("k", 3, 3), "weights": ("k",)}],
     fn(_tri, "sample", "vertices_of_tris", "weights", num_samples=5, ret_face_indices=True))
 reg("tri.quads_to_tris", [("quads", "idx:big")], [{"quads": ("k", 4)}], fn(_tri, "quads_to_tris", "quads", ret_mapping=True),
